@@ -124,9 +124,15 @@ func envConfigs(thorough bool) []EnvCfg {
 				}
 			}
 		}
+		for _, ch := range []int{1, 100, 4096} {
+			for e := range termErrs {
+				r = append(r, EnvCfg{Chunk: ch, ErrWithLast: e%2 == 0, Len: true, Err: e, AfterErr: e % 2})
+			}
+		}
 		return r
 	}
 	i := 0
+	r = append(r, EnvCfg{Chunk: 1, Len: true, Err: 6}, EnvCfg{Chunk: 100, ErrWithLast: true, Len: true, Err: 7, AfterErr: 1}, EnvCfg{Chunk: 4096, Len: true, Err: 1})
 	for _, ch := range []int{0, 1, 7, 4097} {
 		for _, wl := range []bool{false, true} {
 			for z := 0; z <= 1; z++ {
